@@ -300,6 +300,39 @@ class Machine:
             self.pool.append(res)
             self.note_created([res])
             self.lab.tag("roundtrip")
+        elif kind == "vals_recreate":
+            # a node whose property is a set (of ints / strings / sets) is created, given up, and created
+            # again from an equal set built in another element order: the id is free, so it is the same
+            from pbt.props.c01 import _colliding_sets
+
+            k = 2 + o[1] % 4
+            which = ("ffs", "fs", "fss")[o[2] % 3]
+            elems = {"ffs": [frozenset(d["$fs"]) for d in _colliding_sets()], "fs": [8, 16, 0, 24, -1, 32],
+                     "fss": ["b", "a", "zz", "", "aa", "c"]}[which][:k]
+            other = elems[1:] + elems[:1] if o[3] % 2 else list(reversed(elems))
+            org = og.build_origin(ORIGINS[o[3] % len(ORIGINS)], self.sources)
+            first = M.cls("Vals")(**{which: frozenset(elems)}, origin=org)
+            self.note_created([first])
+            id1, cid1 = first.id, first.content_id
+            held = self.registered(first) and "_" not in id1
+            keep = o[1] % 2 == 0
+            if self.registered(first):
+                del self.reg[id1]
+            if keep:
+                first.detach_self()
+            else:
+                del first
+                gc.collect()
+            second = M.cls("Vals")(**{which: frozenset(other)}, origin=org)
+            self.note_created([second])
+            require(second.content_id == cid1, "id-not-deterministic",
+                    f"step {self.step_no}: Vals.{which} from an equal set built in another order: content_id {second.content_id} / {cid1}")
+            if held:
+                require(second.id == id1, "id-not-deterministic",
+                        f"step {self.step_no}: Vals.{which} re-created from an equal set built in another order got {second.id}, "
+                        f"the given-up node had {id1} (id was free)")
+            self.pool.append(second)
+            self.lab.tag("recreated-from-permuted-set")
         elif kind == "drop":
             if not self.pool:
                 return
@@ -451,7 +484,8 @@ def st_program(ctx: Ctx):
     )
     # a parent is given up (only itself) and read back while its children are still registered
     reread = st.tuples(new_parent, small).map(lambda t: [t[0], ["detach_self", -1], ["roundtrip", -1, t[1]]])
-    one = st.one_of(new_leaf, new_leaf, new_parent, new_parent, *simple.values(), simple["twin"], simple["drop"]).map(lambda o: [o])
+    vals_recreate = st.tuples(st.just("vals_recreate"), small, small, small).map(list)
+    one = st.one_of(new_leaf, new_leaf, new_parent, new_parent, *simple.values(), simple["twin"], simple["drop"], vals_recreate).map(lambda o: [o])
     step = st.one_of(one, one, one, one, one, macro, reread)
     prog = st.lists(step, min_size=6, max_size=ctx.pick(18, 24)).map(lambda ss: [o for s in ss for o in s][:40])
     start = st.lists(st.one_of(new_leaf, new_leaf, new_parent), min_size=2, max_size=4)
